@@ -22,13 +22,15 @@ RULE = ("circuits of 1-5 blocks over 6 block kinds (probe SBlock, probe AddonMai
         "termination cause (shutdown(), abort(), ctrl shutdown/abort event, SIGTERM, supporting task "
         "end/failure, handler error; before start / at the yield after start / during async init / "
         "running; optional further request during clean-up) x runner (run_forever task, edzed.run); "
-        "systematic single-fault x cause x instant grid on a fixed 4-block circuit plus random circuits; "
+        "the whole single-fault x cause x instant grid on a fixed 4-block circuit (both tiers) plus 6 000 / 400 000 "
+        "random circuits; order-dependent scenarios are re-run with fresh allocations until both stop orders "
+        "of the synchronous set were seen (tags stop-order-both-seen / stop-order-one-only); "
         "a case is distinct by its (input lines, trace) hash, non-trivial when at least one block was started")
 ASSUMPTIONS = [
     "instants of different origin never coincide (durations = 0 mod 10 ms and pairwise distinct, time-outs = 3, "
     "requests = 5, main task failures = 7 mod 10 ms; 0 = the yield after the start loop)",
-    "a probe's start() raises before the add-on's start() creates its task; a probe's stop()/stop_async() runs "
-    "the library part (super()) before it raises",
+    "a probe block's own start() is below the add-ons in the MRO (it raises before AddonMainTask.start creates the "
+    "main task); a probe's stop()/stop_async() runs the library part (super()) before it raises",
     "stop_timeout > 0 on main-task blocks and larger than the time the main task needs to finish after its "
     "cancellation; no second external cancellation of the simulation task (DESIGN.md section 6)",
     "OutputAsync blocks receive only their stop_data (mode 'wait'); C12 covers their running behaviour",
@@ -71,9 +73,9 @@ class ProbeMixin:
 
     def start(self):
         REC.add('start', self)
-        if 'S' in _flags(self):
+        if 'S' in _flags(self) and not isinstance(self, PSCore):
             raise Boom(f'{self.name}.start')
-        super().start()
+        super().start()     # the probes (PSCore) raise in their own start(), below the add-ons
         REC.add('started', self)
 
     def stop(self):
@@ -106,6 +108,11 @@ class AsyncProbeMixin:
 
 
 class PSCore(edzed.AddonPersistence, edzed.SBlock):
+    def start(self):
+        if 'S' in _flags(self):
+            raise Boom(f'{self.name}.start')
+        super().start()
+
     def init_regular(self):
         f = _flags(self)
         if 'G' in f:
@@ -174,10 +181,6 @@ class PC(ProbeMixin, edzed.FuncBlock):
 
 
 class PTimer(ProbeMixin, edzed.Timer):
-    pass
-
-
-class PInput(ProbeMixin, edzed.Input):
     pass
 
 
@@ -814,6 +817,8 @@ def defect_scenarios():
     # 14: wait_init() while the simulation ends during the initialisation
     yield finish(base_circuit(), {'kind': 'abort', 'time': 15}, wait_init=True)
     yield finish([mk('sync', 'sG')], {'kind': 'shutdown', 'time': 205}, wait_init=True)
+    # a main task that needs time to finish after its cancellation, no other asynchronous clean-up
+    yield finish([mk('async', 's', cdur=4, sdur=0, sto=53), mk('sync', 's')], {'kind': 'shutdown', 'time': 205})
     # start() failure after an output block whose stop_data event goes to a timer that was never started
     yield finish([mk('outf', 't', ons=2), mk('sync', 'sS'), mk('timer')], {'kind': 'shutdown', 'time': 205})
 
@@ -822,6 +827,7 @@ def random_scenario(rng):
     n = rng.randint(1, 5)
     blocks = []
     mf_pool = [0, 7, 27, 57, 127, 257]
+    zero_sdur_used = False
     for i in range(n):
         kind = rng.choice(['sync', 'sync', 'async', 'async', 'async', 'cblock', 'timer', 'outf', 'outa'])
         fl = ''
@@ -845,6 +851,11 @@ def random_scenario(rng):
             b['ito'] = rng.choice([23, 43, 63, 153, 553, 0])
             b['cdur'] = rng.choice([0, 0, 2, 4])
             b['sdur'] = 10 * (i + 1) + 100 * rng.randrange(0, 2)
+            if not zero_sdur_used and rng.random() < 0.25:
+                # no clean-up of its own: stop_async lasts as long as the main task needs to finish
+                zero_sdur_used = True
+                b['sdur'] = 0
+                b['cdur'] = rng.choice([0, 2, 4])
             b['sto'] = rng.choice([33, 53, 83, 123, 253])
             if rng.random() < 0.15:
                 b['mf'] = mf_pool.pop(rng.randrange(len(mf_pool)))     # pairwise distinct
@@ -893,12 +904,8 @@ def random_scenario(rng):
 def scenarios(rng, tier):
     yield from defect_scenarios()
     yield from main_fault_grid()
-    g = list(grid(tier))
-    if tier == 'quick':
-        rng.shuffle(g)
-        g = g[:len(g) // 4]
-    yield from g
-    for _ in range(1500 if tier == 'quick' else 40000):
+    yield from grid(tier)
+    for _ in range(6000 if tier == 'quick' else 400000):
         yield random_scenario(rng)
 
 
